@@ -7,7 +7,7 @@ use rand::prelude::*;
 use serde_json::{json, Value};
 use slotted_egraphs::*;
 use std::io::Write;
-use verif_harness::langs::P;
+use verif_harness::langs::{P, Q};
 use verif_harness::util::*;
 
 fn slot_name(s: Slot) -> String { s.to_string()[1..].to_string() }
@@ -132,6 +132,46 @@ fn main() {
             writeln!(out, "{ev}").unwrap();
             n += 1;
         }
+    }
+    // terms of language Q (named operators WITH payload fields) built through the API: what Display prints must parse back
+    // to the same value, as a term and as a pattern
+    fn genq(rng: &mut StdRng, depth: usize) -> RecExpr<Q> {
+        let syms = ["foo", "a", "x1", "lam", "c", "7", "tag"];
+        let leaf = |n: Q| RecExpr { node: n, children: vec![] };
+        if depth == 0 || rng.gen_bool(0.25) {
+            return match rng.gen_range(0..6) {
+                0 => leaf(Q::C()),
+                1 => leaf(Q::Const(Symbol::from(syms[rng.gen_range(0..3)]))),
+                2 => leaf(Q::Lit(rng.gen_range(0..20))),
+                3 => leaf(Q::V(Slot::named(["1", "x"][rng.gen_range(0..2)]))),
+                4 => leaf(Q::Num(rng.gen_range(0..20))),
+                _ => leaf(Q::Sym(Symbol::from(["foo", "a", "x1"][rng.gen_range(0..3)]))),
+            };
+        }
+        match rng.gen_range(0..4) {
+            0 => RecExpr { node: Q::Tag(Symbol::from(syms[rng.gen_range(0..syms.len())]), AppliedId::null()), children: vec![genq(rng, depth - 1)] },
+            1 => RecExpr { node: Q::Two(rng.gen_range(0..20), Symbol::from(syms[rng.gen_range(0..syms.len())]), AppliedId::null(), AppliedId::null()),
+                           children: vec![genq(rng, depth - 1), genq(rng, depth - 1)] },
+            2 => RecExpr { node: Q::Lam(Bind { slot: Slot::named("x"), elem: AppliedId::null() }), children: vec![genq(rng, depth - 1)] },
+            _ => RecExpr { node: Q::Tag(Symbol::from("foo"), AppliedId::null()), children: vec![genq(rng, depth - 1)] },
+        }
+    }
+    for _ in 0..cases / 2 {
+        let t = genq(&mut rng, 3);
+        let text = match guard(|| t.to_string()) { Ok(s) => s, Err(_) => continue };
+        let res = guard(|| {
+            let as_term = RecExpr::<Q>::parse(&text).map(|r| r == t && r.to_string() == text).unwrap_or(false);
+            let as_pat = Pattern::<Q>::parse(&text).map(|p| p.to_string() == text).unwrap_or(false);
+            (RecExpr::<Q>::parse(&text).is_ok(), as_term && as_pat)
+        });
+        let chars: Vec<String> = text.chars().map(|c| c.to_string()).collect();
+        let none = json!({"k":"none","op":"","sl":[],"ch":[]});
+        let ev = match res {
+            Ok((ok, rt)) => json!({"kind": "payload-term", "chars": chars, "ok": ok, "panic": false, "ast": none, "roundtrip": rt}),
+            Err(p) => { panics += 1; json!({"kind": "payload-term", "chars": chars, "ok": false, "panic": true, "ast": none, "roundtrip": false, "msg": p.msg, "site": p.site}) }
+        };
+        writeln!(out, "{ev}").unwrap();
+        n += 1;
     }
     println!("{}", json!({"kind":"summary","events":n,"panics":panics}));
 }
